@@ -116,6 +116,7 @@ type Stats struct {
 	Capped       string
 	BoundDone    int
 	Skipped      int64
+	Diverged     int64
 }
 
 // Explorer enumerates all executions of body whose number of deviations is <= Bound.
@@ -178,6 +179,14 @@ func (e *Explorer) explore(prefix []int, expect []PointInfo, depth int, body fun
 	}
 	opts := e.Opts
 	x := Run(&opts, prefix, expect, body)
+	if x.End == "diverged" {
+		e.Stats.Diverged++
+		if e.Stats.Capped == "" && e.Stats.Diverged > 3 {
+			// nondeterminism outside the scheduler's control: stop, report as capped
+			e.Stats.Capped = "nondeterminism (replay diverged): " + x.Diverged
+		}
+		return
+	}
 	if mine {
 		e.Stats.Executions++
 		e.Stats.ByDevs[x.devs]++
@@ -189,9 +198,6 @@ func (e *Explorer) explore(prefix []int, expect []PointInfo, depth int, body fun
 		if e.Check != nil {
 			e.Check(x)
 		}
-	}
-	if x.End == "diverged" {
-		return
 	}
 	for i := len(prefix); i < len(x.Points); i++ {
 		p := x.Points[i]
